@@ -52,6 +52,8 @@ pub struct Qcow2Dev<T> {
     // set in case that any dirty meta is made
     need_flush: AtomicBool,
     flush_lock: AsyncMutex<()>,
+    // serializes refcount flushing, see flush_refcount()
+    refcount_flush_lock: AsyncMutex<()>,
 
     file: T,
     backing_file: Option<Box<Qcow2Dev<T>>>,
@@ -131,6 +133,7 @@ impl<T: Qcow2IoOps> Qcow2Dev<T> {
             new_cluster: AsyncRwLock::new(Default::default()),
             need_flush: AtomicBool::new(false),
             flush_lock: AsyncMutex::new(()),
+            refcount_flush_lock: AsyncMutex::new(()),
         };
 
         Ok(dev)
